@@ -230,7 +230,18 @@ class Exec:
             ff = st.ghost['ff']
             if e.attr in ff: return ff[e.attr](o.t)
             raise Unsupported(('ref field', e.attr))
-        if isinstance(o, VOpt):   # attribute on Optional: TypeError/AttributeError path not modelled in spike
+        if isinstance(o, VOpt) and isinstance(o.val, (VObj, VRef)):
+            # attribute on an Optional: the AttributeError path becomes a safety obligation (must be excluded by the path condition)
+            self.oblige('safety:AttributeError(attribute of None)', st, z3.Not(o.none))
+            inner = o.val
+            if isinstance(inner, VObj):
+                f = st.objf[inner.name]
+                if e.attr in f: return f[e.attr]
+                raise Unsupported(('field', inner.name, e.attr))
+            ff = st.ghost['ff']
+            if e.attr in ff: return ff[e.attr](inner.t)
+            raise Unsupported(('ref field', e.attr))
+        if isinstance(o, VOpt):
             raise Unsupported(('attr on optional', e.attr))
         raise Unsupported(('attr', ast.unparse(e)))
     def e_UnaryOp(self, e, st):
@@ -666,6 +677,23 @@ class Exec:
                     fin.append((kind, val, s3) if k2 == 'fall' else (k2, v2, s3))
             outs = fin
         return outs
+    def s_With(self, s, st):
+        """`with expr as name:` -- the context manager protocol is abstracted: the value of expr is bound to the name and the body runs
+        (no __exit__ suppression of exceptions is modelled: library context managers here do not swallow)"""
+        outs = [('fall', None, st)]
+        for item in s.items:
+            nxt = []
+            for kind, val, s0 in outs:
+                if kind != 'fall': nxt.append((kind, val, s0)); continue
+                def k(v, s2, item=item):
+                    if item.optional_vars is not None: return self.assign(item.optional_vars, v, s2)
+                    return [('fall', None, s2)]
+                nxt.extend(self.with_value(item.context_expr, s0, k))
+            outs = nxt
+        res = []
+        for kind, val, s0 in outs:
+            res.extend(self.block(s.body, s0) if kind == 'fall' else [(kind, val, s0)])
+        return res
     def s_For(self, s, st):
         header = f'for {ast.unparse(s.target)} in {ast.unparse(s.iter)}'
         spec = self.invariants.get(header)
